@@ -397,7 +397,11 @@ H_Create(p) ==
      LET f == HookFailOut([o EXCEPT !.kf = @ \cup {"L14"}]) IN
      IF Present(h)
      THEN ResCall(p, "POST", h, FALSE, cluster, f, f)                               \* 409 already exists
-     ELSE ResCall(p, "POST", h, TRUE, [cluster EXCEPT ![h] = HookObj], [pc |-> "H_Watch", op |-> o], f)
+     ELSE ResCall(p, "POST", h, TRUE,
+                  \* (a hook manifest may carry the keep resource policy: it is an annotation of the object, nothing more -
+                  \*  hooks are deleted by their delete policies regardless)
+                  [cluster EXCEPT ![h] = IF o.hk.defs[h].keep THEN [HookObj EXCEPT !.pol = "keep"] ELSE HookObj],
+                  [pc |-> "H_Watch", op |-> o], f)
 
 H_Watch(p) ==
   /\ pc[p] = "H_Watch" /\ Budgets
